@@ -93,10 +93,11 @@ type ContractSet struct {
 	Consts map[string]string
 	Macros map[string]*Macro
 	Dups   []string
+	EnvGhosts map[string]bool
 }
 
 func newContractSet() *ContractSet {
-	return &ContractSet{Funcs: map[string]*FuncContract{}, Fns: map[string]*SpecFn{}, Ghosts: map[string]string{}, Consts: map[string]string{}, Macros: map[string]*Macro{}}
+	return &ContractSet{Funcs: map[string]*FuncContract{}, Fns: map[string]*SpecFn{}, Ghosts: map[string]string{}, Consts: map[string]string{}, Macros: map[string]*Macro{}, EnvGhosts: map[string]bool{}}
 }
 
 // sortSpec converts a Go-ish sort spelling to SMT.
@@ -207,8 +208,11 @@ func (cs *ContractSet) loadFile(path string) error {
 			} else {
 				cur.Props = strings.Fields(rest)
 			}
-		case "ghost":
+		case "ghost", "envghost": // envghost: environment state (clock...), exempt from frame checks
 			name, srt, _ := strings.Cut(rest, " ")
+			if kw == "envghost" {
+				cs.EnvGhosts[name] = true
+			}
 			if _, ok := cs.Ghosts[name]; !ok {
 				cs.GhOrd = append(cs.GhOrd, name)
 			}
